@@ -304,9 +304,9 @@ pub fn call_readonly<O: ReadOnly + ?Sized>(rv: &mut Recv<O>, mi: usize, a: &mut 
 
 // Shapes -------------------------------------------------------------------------------------
 
-pub const SHAPES: [Meth; 22] = [
+pub const SHAPES: [Meth; 24] = [
     m("s_slice"), m("s_slice_u64"), m("s_slice_mut"), m("s_str"), m("s_opt"), m("s_opt_ref"), m("s_mixed"), m("s_res"), m("s_into"), m("s_struct"),
-    m("s_cb"), m("s_iter"), m("s_ret_str"), m("s_ret_slice"), m("s_ret_mut_slice"), m("s_ret_opt_ref"), m("s_str_to_str"), m("s_vec"), m("s_mut_ref"), m("s_two_slices"), m("s_opt_then_slice"), m("s_two_mut"),
+    m("s_cb"), m("s_iter"), m("s_ret_str"), m("s_ret_slice"), m("s_ret_mut_slice"), m("s_ret_opt_ref"), m("s_str_to_str"), m("s_vec"), m("s_mut_ref"), m("s_two_slices"), m("s_opt_then_slice"), m("s_two_mut"), m("s_unit_slice"), m("s_ret_unit_slice"),
 ];
 
 /// Source iterator for CIterator arguments: counts how far it was advanced.
@@ -498,6 +498,18 @@ pub fn call_shapes<O: Shapes + ?Sized>(rv: &mut Recv<O>, mi: usize, a: &mut A) -
             let b = o.s_mut_ref(&mut x);
             Ret::Multi(vec![Ret::B(b), Ret::U(x)])
         }
+        22 => {
+            let o = need_mut!(rv);
+            let n = (a.u(0) % 1500) as usize;
+            let v = &TICKS[(a.u(1) % 7) as usize..][..n];
+            a.note(v);
+            Ret::U(o.s_unit_slice(v) as u64)
+        }
+        23 => {
+            let r = rv.r().s_ret_unit_slice();
+            a.sent.push((r.as_ptr() as usize, r.len()));
+            Ret::U(r.len() as u64)
+        }
         _ => Ret::NoSuchMethod,
     }
 }
@@ -640,13 +652,14 @@ pub fn call_genu64<O: Gen<u64> + ?Sized>(rv: &mut Recv<O>, mi: usize, a: &mut A)
     }
 }
 
-pub const ATTRS: [Meth; 4] = [m("at_first"), m("at_last"), m("at_c"), m("last")];
+pub const ATTRS: [Meth; 5] = [m("at_first"), m("at_last"), m("at_c"), m("last"), Meth { name: "at_vonly", logged_as: "at_first" }];
 pub fn call_attrs<O: Attrs + ?Sized>(rv: &mut Recv<O>, mi: usize, a: &mut A) -> Ret {
     match mi {
         0 => Ret::U(rv.r().at_first(a.u(0))),
         1 => Ret::U(need_mut!(rv).at_last(a.u(0))),
         2 => Ret::U(rv.r().at_c() as u64),
         3 => Ret::U(need_mut!(rv).last(a.u(0))),
+        4 => Ret::U(rv.r().at_vonly(a.u(0))),
         _ => Ret::NoSuchMethod,
     }
 }
